@@ -189,7 +189,11 @@ def build_reader(case, data, tmpdir, cls=AudioReader, record=None):
         from .stdin import PipeStdin
 
         # a real pipe (BufferedReader + fileno), fed by a slow producer in chunks smaller than a block
-        ps = PipeStdin(data, random.Random(case["seed"]), max_chunk=max(1, min(7, case["block"] * width * channels - 1)))
+        if case["seed"] % 4 == 1:
+            ps = PipeStdin(data, random.Random(case["seed"]), header=b"#pcm stream follows\n")
+            ps.consume_header()  # the application read a header line through the buffered layer first
+        else:
+            ps = PipeStdin(data, random.Random(case["seed"]), max_chunk=max(1, min(7, case["block"] * width * channels - 1)))
         sys.stdin = ps
 
         def cleanup_pipe():
